@@ -24,11 +24,13 @@ type partition struct {
 	atoms map[string]int // D, canonical sign
 	t     int64
 	pos   token.Pos
-	upper bool // the condition value (after stripping NOTs: see cmpOf's truth) is true on the upper part
+	upper bool // the comparison operator holds exactly on the upper part
+	truth bool // cmpOf's truth: the If's true edge is taken when the operator holds == truth
+	cmpv  *ssa.BinOp
 }
 
 func partitionOf(cond ssa.Value) (partition, bool) {
-	cm, _, ok := cmpOf(cond)
+	cm, truth, ok := cmpOf(cond)
 	if !ok {
 		return partition{}, false
 	}
@@ -76,7 +78,8 @@ func partitionOf(cond ssa.Value) (partition, bool) {
 		t = -t - 1
 		upper = !upper
 	}
-	return partition{atoms: atoms, t: t, upper: upper}, true
+	bo, _ := stripNot(cond).(*ssa.BinOp)
+	return partition{atoms: atoms, t: t, upper: upper, truth: truth, cmpv: bo}, true
 }
 
 func (p partition) String() string {
@@ -261,6 +264,9 @@ func (c *Ctx) dumpPartitions() {
 func batom(v ssa.Value, depth int) string {
 	switch x := v.(type) {
 	case *ssa.Parameter:
+		if as := boundArgs(x); len(as) == 1 && depth < 8 {
+			return batom(as[0], depth+1)
+		}
 		for i, p := range x.Parent().Params {
 			if p == x {
 				return fmt.Sprintf("param#%d", i)
@@ -329,4 +335,132 @@ func bfield(base ssa.Value, name string) string {
 		break
 	}
 	return name
+}
+
+// provenLower: the best constant lower bound of expr that the branches dominating instruction at
+// establish.  Every dominating comparison contributes, whichever way it is written (40 <= len(b),
+// !(len(b) < 40), len(b)-40 >= 0 ...); for an instruction inside a new helper with a single call
+// site the caller's branches that dominate the call count as well.
+func provenLower(at ssa.Instruction, expr ssa.Value) (int64, bool) {
+	e := linearB(expr, 0)
+	if !e.ok {
+		return 0, false
+	}
+	if len(nonZero(e.atoms)) == 0 {
+		return e.k, true
+	}
+	best, found := int64(0), false
+	note := func(v int64) {
+		if !found || v > best {
+			best, found = v, true
+		}
+	}
+	scan := func(fn *ssa.Function, at ssa.Instruction) {
+		for _, b := range fn.Blocks {
+			iff := lastIf(b)
+			if iff == nil {
+				continue
+			}
+			p, ok := partitionOf(iff.Cond)
+			if !ok {
+				continue
+			}
+			for _, taken := range []bool{true, false} {
+				to := b.Succs[1]
+				if taken {
+					to = b.Succs[0]
+				}
+				if !(len(to.Preds) == 1 && (to == at.Block() || to.Dominates(at.Block()))) {
+					continue
+				}
+				upperHere := (p.upper == p.truth) == taken
+				// e's atoms equal to +D or -D ?
+				same, neg := len(nonZero(e.atoms)) == len(p.atoms), len(nonZero(e.atoms)) == len(p.atoms)
+				for a, n := range p.atoms {
+					if e.atoms[a] != n {
+						same = false
+					}
+					if e.atoms[a] != -n {
+						neg = false
+					}
+				}
+				switch {
+				case same && upperHere: // D >= t+1
+					note(p.t + 1 + e.k)
+				case neg && !upperHere: // D <= t  =>  -D >= -t
+					note(-p.t + e.k)
+				}
+			}
+		}
+	}
+	fn := at.Parent()
+	scan(fn, at)
+	for depth := 0; depth < 3 && newHelpers[fn] && len(helperSites[fn]) == 1; depth++ {
+		cs := helperSites[fn][0]
+		fn = cs.Parent()
+		scan(fn, cs)
+	}
+	return best, found
+}
+
+// provenUpper is the mirror image of provenLower: the best constant upper bound of expr at at.
+func provenUpper(at ssa.Instruction, expr ssa.Value) (int64, bool) {
+	e := linearB(expr, 0)
+	if !e.ok {
+		return 0, false
+	}
+	if len(nonZero(e.atoms)) == 0 {
+		return e.k, true
+	}
+	best, found := int64(0), false
+	note := func(v int64) {
+		if !found || v < best {
+			best, found = v, true
+		}
+	}
+	scan := func(fn *ssa.Function, at ssa.Instruction) {
+		for _, b := range fn.Blocks {
+			iff := lastIf(b)
+			if iff == nil {
+				continue
+			}
+			p, ok := partitionOf(iff.Cond)
+			if !ok {
+				continue
+			}
+			for _, taken := range []bool{true, false} {
+				to := b.Succs[1]
+				if taken {
+					to = b.Succs[0]
+				}
+				if !(len(to.Preds) == 1 && (to == at.Block() || to.Dominates(at.Block()))) {
+					continue
+				}
+				upperHere := (p.upper == p.truth) == taken
+				same, neg := len(nonZero(e.atoms)) == len(p.atoms), len(nonZero(e.atoms)) == len(p.atoms)
+				for a, n := range p.atoms {
+					if e.atoms[a] != n {
+						same = false
+					}
+					if e.atoms[a] != -n {
+						neg = false
+					}
+				}
+				switch {
+				case same && !upperHere: // D <= t
+					note(p.t + e.k)
+				case neg && upperHere: // D >= t+1  =>  -D <= -(t+1)
+					note(-(p.t + 1) + e.k)
+				}
+			}
+		}
+	}
+	fn := at.Parent()
+	scan(fn, at)
+	for depth := 0; depth < 3 && newHelpers[fn] && len(helperSites[fn]) == 1; depth++ {
+		cs := helperSites[fn][0]
+		fn = cs.Parent()
+		scan(fn, cs)
+	}
+	return best, found
 }
